@@ -282,7 +282,13 @@ def bits2f(b):
 
 # --------------------------------------------------------------------------- known findings
 
+_KF_CACHE = None
+
+
 def known_findings():
+    global _KF_CACHE
+    if _KF_CACHE is not None:
+        return _KF_CACHE
     path = os.path.join(VERIF, "known_findings.txt")
     res = []
     if os.path.exists(path):
@@ -291,6 +297,7 @@ def known_findings():
             m = re.match(r"finding:\s+property=(\S+)\s+key=(\S+)\s*(.*)", l)
             if m:
                 res.append((m.group(1), m.group(2), m.group(3)))
+    _KF_CACHE = res
     return res
 
 
@@ -478,7 +485,7 @@ class Ctx:
                     first = i
         st["mismatches"] += nmis
         st["oracle_failures"] += len(orc)
-        for o in orc:
+        for o in orc[:2000]:     # a mutant that fails on every case needs no more than this
             m = re.search(r"line=(\d+)", o)
             i = int(m.group(1)) - 1 if m else 0
             grp = self._group(ops_lines, i, group_start)
